@@ -26,6 +26,7 @@ Record frame (touch : Z -> Prop) (s s' : node) : Prop := mkFrame {
   f_circ : forall x c', I x = true -> aget x (circuits s') = Some c' ->
       exists c, aget x (circuits s) = Some c
         /\ c_first c' = c_first c /\ c_goal c' = c_goal c /\ c_hops c' = c_hops c
+        /\ c_unver c' = c_unver c /\ creation (c_ro c') = creation (c_ro c)
         /\ (la (c_ro c') = la (c_ro c) \/ (touch x /\ la (c_ro c') = now s))
         /\ (c_closing c = true -> c_closing c' = true)
         /\ (c_closing c = false -> c_closing c' = true ->
@@ -36,8 +37,9 @@ Record frame (touch : Z -> Prop) (s s' : node) : Prop := mkFrame {
   f_rel_out : forall x r', I x = false -> aget x (relays s') = Some r' ->
       (exists r, aget x (relays s) = Some r /\ r_next r' = r_next r) \/ I (r_next r') = false;
   f_exit : forall x e', I x = true -> aget x (exits s') = Some e' ->
-      exists e, aget x (exits s) = Some e
+      exists e, aget x (exits s) = Some e /\ e_peer e' = e_peer e
                 /\ (la (e_ro e') = la (e_ro e) \/ (touch x /\ la (e_ro e') = now s));
+  f_createds : forall x due, I x = true -> aget x (createds s') = Some due -> aget x (createds s) = Some due;
   f_creates : forall k cc, aget k (creates s') = Some cc ->
       aget k (creates s) = Some cc \/ (I (cc_from cc) = false /\ I (cc_to cc) = false);
   f_retries : forall x rt, I x = true -> aget x (retries s') = Some rt -> exists rt0, aget x (retries s) = Some rt0;
@@ -59,11 +61,12 @@ Qed.
 
 Lemma frame_trans (touch : Z -> Prop) a b c : frame touch a b -> frame touch b c -> frame touch a c.
 Proof.
-  intros [n1 c1 r1 o1 e1 k1 t1 s1 l1] [n2 c2 r2 o2 e2 k2 t2 s2 l2]. constructor.
+  intros [n1 c1 r1 o1 e1 d1 k1 t1 s1 l1] [n2 c2 r2 o2 e2 d2 k2 t2 s2 l2]. constructor.
   - congruence.
-  - intros x c' Hi H. destruct (c2 _ _ Hi H) as (cb & Hb & F2 & G2 & H2 & L2 & K2 & W2).
-    destruct (c1 _ _ Hi Hb) as (ca & Ha & F1 & G1 & H1 & L1 & K1 & W1).
-    exists ca. split; [exact Ha|]. split; [congruence|]. split; [congruence|]. split; [congruence|]. split.
+  - intros x c' Hi H. destruct (c2 _ _ Hi H) as (cb & Hb & F2 & G2 & H2 & U2 & C2 & L2 & K2 & W2).
+    destruct (c1 _ _ Hi Hb) as (ca & Ha & F1 & G1 & H1 & U1 & C1 & L1 & K1 & W1).
+    exists ca. split; [exact Ha|]. split; [congruence|]. split; [congruence|]. split; [congruence|].
+    split; [congruence|]. split; [congruence|]. split.
     { destruct L2 as [L2|[T2 L2]]; [|right; split; [exact T2 | congruence]].
       destruct L1 as [L1|[T1 L1]]; [left; congruence | right; split; [exact T1 | congruence]]. }
     split; [auto|]. intros Ka Kc. destruct (c_closing cb) eqn:Kb.
@@ -76,10 +79,11 @@ Proof.
     destruct L1 as [L1|[T1 L1]]; [left; congruence | right; split; [exact T1 | congruence]].
   - intros x r' Hi H. destruct (o2 _ _ Hi H) as [(rb & Hb & N2)|N2]; [|right; exact N2].
     destruct (o1 _ _ Hi Hb) as [(ra & Ha & N1)|N1]; [left; exists ra; split; [exact Ha | congruence] | right; congruence].
-  - intros x e' Hi H. destruct (e2 _ _ Hi H) as (eb & Hb & L2). destruct (e1 _ _ Hi Hb) as (ea & Ha & L1).
-    exists ea. split; [exact Ha|].
+  - intros x e' Hi H. destruct (e2 _ _ Hi H) as (eb & Hb & P2 & L2). destruct (e1 _ _ Hi Hb) as (ea & Ha & P1 & L1).
+    exists ea. split; [exact Ha|]. split; [congruence|].
     destruct L2 as [L2|[T2 L2]]; [|right; split; [exact T2 | congruence]].
     destruct L1 as [L1|[T1 L1]]; [left; congruence | right; split; [exact T1 | congruence]].
+  - intros x due Hi H. apply d1; auto.
   - intros k cc H. destruct (k2 _ _ H) as [Hb|Hb]; [apply k1; exact Hb | right; exact Hb].
   - intros x rt Hi H. destruct (t2 _ _ Hi H) as (rb & Hb). eapply t1; eauto.
   - intros d H. destruct (s2 _ H) as [Hb|[Hb Hb2]]; [apply s1; exact Hb | right; split; [exact Hb|]].
@@ -93,13 +97,14 @@ Qed.
 
 Lemma frame_weaken (t1 t2 : Z -> Prop) s s' : (forall x, t1 x -> t2 x) -> frame t1 s s' -> frame t2 s s'.
 Proof.
-  intros W [n c r o e k t s0 l]. constructor; auto.
-  - intros x c' Hi H. destruct (c _ _ Hi H) as (c0 & H0 & A & B & C & L & K). exists c0.
-    split; [exact H0|]. split; [exact A|]. split; [exact B|]. split; [exact C|]. split; [|exact K].
+  intros W [n c r o e dd k t s0 l]. constructor; auto.
+  - intros x c' Hi H. destruct (c _ _ Hi H) as (c0 & H0 & A & B & C & U & Cr & L & K). exists c0.
+    split; [exact H0|]. split; [exact A|]. split; [exact B|]. split; [exact C|]. split; [exact U|].
+    split; [exact Cr|]. split; [|exact K].
     destruct L as [L|[T L]]; [left; exact L | right; split; auto].
   - intros x r' Hi H. destruct (r _ _ Hi H) as (r0 & H0 & N & P & L). exists r0. repeat split; auto.
     destruct L as [L|[T L]]; [left; exact L | right; split; auto].
-  - intros x e' Hi H. destruct (e _ _ Hi H) as (e0 & H0 & L). exists e0. split; auto.
+  - intros x e' Hi H. destruct (e _ _ Hi H) as (e0 & H0 & P & L). exists e0. split; auto. split; auto.
     destruct L as [L|[T L]]; [left; exact L | right; split; auto].
   - intros d H. destruct (s0 _ H) as [H0|[H0 H1]]; [left; exact H0 | right; split; auto].
     intros x Ed Hi. destruct (H1 x Ed Hi). split; auto.
@@ -120,6 +125,7 @@ Ltac same_fields :=
 Lemma frame_set_circuit (touch : Z -> Prop) s x c1 :
   (I x = true -> exists c, aget x (circuits s) = Some c
       /\ c_first c1 = c_first c /\ c_goal c1 = c_goal c /\ c_hops c1 = c_hops c
+      /\ c_unver c1 = c_unver c /\ creation (c_ro c1) = creation (c_ro c)
       /\ (la (c_ro c1) = la (c_ro c) \/ (touch x /\ la (c_ro c1) = now s))
       /\ c_closing c1 = c_closing c) ->
   frame touch s (set_circuits (aset x c1 (circuits s)) s).
@@ -127,7 +133,7 @@ Proof.
   intro Hx. constructor; try same_fields.
   - simpl. intros y c' Hi H. rewrite aget_aset in H. destruct (y =? x) eqn:E.
     + apply Z.eqb_eq in E; subst y. inversion H; subst c'.
-      destruct (Hx Hi) as (c & Hc & A & B & C & L & K). exists c. repeat split; auto; congruence.
+      destruct (Hx Hi) as (c & Hc & A & B & C & U & Cr & L & K). exists c. repeat split; auto; congruence.
     + eexists; split; [exact H|]. repeat split; auto. congruence.
 Qed.
 
@@ -163,7 +169,7 @@ Proof.
 Qed.
 
 Lemma frame_set_exit (touch : Z -> Prop) s x e1 :
-  (I x = true -> exists e, aget x (exits s) = Some e
+  (I x = true -> exists e, aget x (exits s) = Some e /\ e_peer e1 = e_peer e
                            /\ (la (e_ro e1) = la (e_ro e) \/ (touch x /\ la (e_ro e1) = now s))) ->
   frame touch s (set_exits (aset x e1 (exits s)) s).
 Proof.
@@ -193,8 +199,10 @@ Proof.
   simpl. intros k' cc' H. rewrite aget_aset in H. destruct (k' =? k); [inversion H; subst; right; auto | left; exact H].
 Qed.
 
-Lemma frame_set_createds (touch : Z -> Prop) s x : frame touch s (set_createds x s).
-Proof. constructor; same_fields. Qed.
+Lemma frame_set_createds (touch : Z -> Prop) s l :
+  (forall x due, I x = true -> aget x l = Some due -> aget x (createds s) = Some due) ->
+  frame touch s (set_createds l s).
+Proof. intro H. constructor; try same_fields; try exact H. Qed.
 
 Lemma frame_set_last_sweep (touch : Z -> Prop) s t : frame touch s (set_last_sweep t s).
 Proof. constructor; same_fields. Qed.
